@@ -3,7 +3,7 @@
     fixes/C10-1), as int and as text, read and written; Decimal(scale): a value off the quantum is rejected on write, whatever is read comes out
     at the quantum with at most 28 digits, non-finite values are refused in both directions.
     (The digit bound is the interpreter's int/str conversion limit, sys.get_int_max_str_digits() = 4300.) *)
-From OfxV Require Import Base.Prelude Base.Digits Gen.ScalarsGen Model.PyDecimal Model.Scalars Model.ScalarsLex Proofs.ScalarsText Proofs.PyDecimalProofs Proofs.ScalarsProofs Proofs.ScalarsLexProofs.
+From OfxV Require Import Base.Prelude Base.Digits Gen.ScalarsGen Model.PyDecimal Model.Scalars Model.ScalarsLex Proofs.ScalarsText Proofs.PyDecimalProofs Proofs.ScalarsProofs Proofs.ScalarsLexProofs Proofs.ScalarsThms.
 Local Open Scope N_scope.
 Theorem T_limits_strict : forall e,
   (forall n strict s, elem_sty e = TString (Some n) strict ->
@@ -24,19 +24,5 @@ Theorem T_limits_strict : forall e,
      (forall neg c ex, ex <> quantum_exp n -> unconvert e (PDec (Fin neg c ex)) = Err Reject) /\
      (forall x d w, convert e x = OK (PDec d, w) -> exists neg c, d = Fin neg c (quantum_exp n) /\ (c = 0 \/ (ndigits c <= PREC)%Z))) /\
   (forall sc d, elem_sty e = TDecimal sc -> is_finite d = false -> unconvert e (PDec d) = Err Reject /\ convert e (PDec d) = Err Reject).
-Proof.
-  intro e. split; [|split; [|split]].
-  - intros n strict s H. rewrite !convert_elem, !unconvert_elem, H.
-    destruct (string_limits n strict (elem_required e) s) as (A & B & C).
-    split; [exact A|]. split.
-    + intro Hlt. destruct (B Hlt) as [B1 B2]. split; intros ->; assumption.
-    + intros Hne Hfree. destruct (C Hne Hfree) as [C1 C2]. split; [exact C1|]. intro Hlt. destruct (C2 Hlt) as [C3 C4]. split; intros ->; assumption.
-  - intros n z H. rewrite !convert_elem, !unconvert_elem, H. destruct (integer_limits n (elem_required e) z) as [A B]. split.
-    + intro Hlt. destruct (A Hlt) as (A1 & A2 & A3). split; [exact A1|exact A3].
-    + exact B.
-  - intros n H. destruct (decimal_limits n (elem_required e)) as (A & B & _). split.
-    + intros neg c ex Hx. rewrite unconvert_elem, H. exact (A neg c ex Hx).
-    + intros x d w. rewrite convert_elem, H. exact (B x d w).
-  - intros sc d H Hf. rewrite convert_elem, unconvert_elem, H. destruct (decimal_limits 0 (elem_required e)) as (_ & _ & C). exact (C d Hf sc).
-Qed.
+Proof. exact T_limits_strict_l. Qed.
 Print Assumptions T_limits_strict.
